@@ -766,3 +766,165 @@ Proof.
       as [H1 H2].
     split; cbn [fst snd]; [exact H1|]. rewrite H2. exact Hlen.
 Qed.
+
+(* ================= removed / masked labels never reach the dictionary lookup ================= *)
+
+Lemma walks_to_isolated g k : forall u v, (forall a, ~ edge g a v) -> walks g (S k) u v = 0.
+Proof.
+  induction k as [|k IH]; intros u v Hv.
+  - cbn [walks]. apply lsum_zero. intros x Hx. destruct (Nat.eqb_spec x v); [|reflexivity].
+    subst. exfalso. apply (Hv u). exact Hx.
+  - change (walks g (S (S k)) u v) with (lsum (fun y => walks g (S k) y v) (succs g u)).
+    apply lsum_zero. intros x _. apply IH. exact Hv.
+Qed.
+
+Lemma weighted_walks_isolated ws g u v : isolated g u \/ isolated g v -> weighted_walks ws g u v = 0.
+Proof.
+  intros H. unfold weighted_walks. apply sumn_zero. intros i _.
+  destruct H as [[Hs _]|[_ Hin]].
+  - cbn [walks]. rewrite Hs. cbn. ring.
+  - rewrite walks_to_isolated by exact Hin. ring.
+Qed.
+
+Lemma existsb_false {A} (f : A -> bool) l : (forall x, In x l -> f x = false) -> existsb f l = false.
+Proof.
+  intros H. destruct (existsb f l) eqn:E; [|reflexivity].
+  apply existsb_exists in E as [x [Hx Hf]]. rewrite H in Hf by exact Hx. discriminate.
+Qed.
+
+Lemma keyerror_realign_false d cls G :
+  (forall i j, (i < length cls)%nat -> (j < length cls)%nat -> mget G i j <> 0 ->
+     in_dict d (nth i cls 0%nat) = true /\ in_dict d (nth j cls 0%nat) = true) ->
+  keyerror (realign_events d cls G) = false.
+Proof.
+  intros H. unfold keyerror. apply existsb_false. intros e He.
+  unfold realign_events in He. apply in_flat_map in He as [i [Hi He]]. apply in_flat_map in He as [j [Hj He]].
+  apply in_seq in Hi. apply in_seq in Hj.
+  destruct (Z.eqb_spec (mget G i j) 0) as [E|E]; [destruct He|].
+  destruct He as [<-|[]]. destruct (H i j) as [H1 H2]; [lia|lia|exact E|].
+  unfold in_dict in H1, H2.
+  destruct (lookup d (nth i cls 0%nat)); [|discriminate].
+  destruct (lookup d (nth j cls 0%nat)); [|discriminate]. reflexivity.
+Qed.
+
+Lemma nth_classes_In labels i : (i < length (classes labels))%nat -> In (nth i (classes labels) 0%nat) labels.
+Proof. intros H. apply classes_In. apply nth_In. exact H. Qed.
+
+Lemma keyerror_removed ws d g labels : wf_tree (g, labels) -> out_forest g ->
+  keyerror (tree_events ws d (preprocess None d (g, labels))) = false.
+Proof.
+  intros [Hwf Hlen] Hf. cbn [fst snd] in *.
+  assert (Hcase : labels = [] \/ labels <> []) by (destruct labels; [left; reflexivity|right; discriminate]).
+  destruct Hcase as [->|Hne]; [reflexivity|].
+  unfold preprocess.
+  set (xs := filter (fun i => negb (in_dict d (nth i labels 0%nat))) (seq 0 (length labels))).
+  destruct (remove_list_isolated xs g Hf) as [_ Hiso].
+  destruct (wf_graph_remove_list xs g Hwf) as [Hwf' Hlen'].
+  set (g' := fold_left remove_node xs g) in *.
+  unfold tree_events.
+  set (M := count_matrix (length g') (adj g') ws).
+  assert (Hz : forall u v, (u < length labels)%nat -> (v < length labels)%nat ->
+             (in_dict d (nth u labels 0%nat) = false \/ in_dict d (nth v labels 0%nat) = false) ->
+             mget M u v = 0).
+  { intros u v Hu Hv Hd. unfold M. rewrite count_matrix_spec by (auto; lia).
+    apply weighted_walks_isolated.
+    assert (Hx : forall x, (x < length labels)%nat -> in_dict d (nth x labels 0%nat) = false -> isolated g' x).
+    { intros x Hx E. apply Hiso. left. unfold xs. apply filter_In. split; [apply in_seq; lia|].
+      rewrite E. reflexivity. }
+    destruct Hd; [left|right]; auto. }
+  assert (Claim : forall i j, (i < length (classes labels))%nat -> (j < length (classes labels))%nat ->
+            (in_dict d (nth i (classes labels) 0%nat) = false \/ in_dict d (nth j (classes labels) 0%nat) = false) ->
+            mget (collapse M labels) i j = 0).
+  { intros i j Hi Hj Hd. rewrite collapse_spec by auto.
+    apply sumn_zero. intros u Hu. apply sumn_zero. intros v Hv.
+    destruct (Nat.eqb_spec (nth u labels 0%nat) (nth i (classes labels) 0%nat)) as [Eu|Eu]; [|cbn [ind]; ring].
+    destruct (Nat.eqb_spec (nth v labels 0%nat) (nth j (classes labels) 0%nat)) as [Ev|Ev]; [|cbn [ind]; ring].
+    rewrite Hz; [ring|assumption|assumption|]. rewrite Eu, Ev. exact Hd. }
+  apply keyerror_realign_false. intros i j Hi Hj Hnz.
+  destruct (in_dict d (nth i (classes labels) 0%nat)) eqn:Ei;
+    destruct (in_dict d (nth j (classes labels) 0%nat)) eqn:Ej; auto;
+    exfalso; apply Hnz; apply Claim; auto.
+Qed.
+
+Lemma keyerror_masked ws d m g labels : in_dict d m = true ->
+  keyerror (tree_events ws d (preprocess (Some m) d (g, labels))) = false.
+Proof.
+  intros Hm. unfold preprocess, tree_events.
+  set (labels' := map (fun l => if in_dict d l then l else m) labels).
+  assert (Hall : forall l, In l labels' -> in_dict d l = true).
+  { intros l Hl. unfold labels' in Hl. apply in_map_iff in Hl as [l0 [<- _]].
+    destruct (in_dict d l0) eqn:E; auto. }
+  apply keyerror_realign_false. intros i j Hi Hj _. split; apply Hall, nth_classes_In; assumption.
+Qed.
+
+Lemma no_keyerror ws d mask trees :
+  Forall (fun t => wf_tree t /\ (mask = None -> out_forest (fst t))) trees ->
+  (forall m, mask = Some m -> in_dict d m = true) ->
+  any_keyerror ws d (map (preprocess mask d) trees) = false.
+Proof.
+  intros Hall Hm. unfold any_keyerror. apply existsb_false. intros t' Ht'.
+  apply in_map_iff in Ht' as [[g labels] [<- Ht]]. rewrite Forall_forall in Hall.
+  destruct (Hall _ Ht) as [Hwf Hf]. destruct mask as [m|].
+  - apply keyerror_masked. auto.
+  - apply keyerror_removed; auto.
+Qed.
+
+(* ================= boolean checkers (used by the Examples) ================= *)
+Definition wf_graphb (g : graph) : bool := forallb (fun row => forallb (fun x => (x <? length g)%nat) row) g.
+
+Lemma wf_graphb_ok g : wf_graphb g = true -> wf_graph g.
+Proof.
+  unfold wf_graphb. rewrite forallb_forall. intros H u x Hx.
+  destruct (Nat.lt_ge_cases u (length g)) as [Hu|Hu].
+  - specialize (H (succs g u) (nth_In g [] Hu)). rewrite forallb_forall in H. apply Nat.ltb_lt. apply H. exact Hx.
+  - unfold succs in Hx. rewrite nth_overflow in Hx by exact Hu. destruct Hx.
+Qed.
+
+(* at most one parent: the concatenation of all rows is duplicate free (this also gives simple rows) *)
+Fixpoint nodupb (l : list nat) : bool :=
+  match l with [] => true | x :: r => negb (existsb (Nat.eqb x) r) && nodupb r end.
+
+Lemma nodupb_ok l : nodupb l = true -> NoDup l.
+Proof.
+  induction l as [|x r IH]; cbn; intros H; [constructor|].
+  apply andb_prop in H as [H1 H2]. constructor; [|auto].
+  intros Hin. apply negb_true_iff in H1. assert (existsb (Nat.eqb x) r = true); [|congruence].
+  apply existsb_exists. exists x. split; [exact Hin|apply Nat.eqb_refl].
+Qed.
+
+Definition out_forestb (g : graph) : bool := nodupb (concat g).
+
+Lemma NoDup_app_inv {A} (l1 l2 : list A) : NoDup (l1 ++ l2) ->
+  NoDup l1 /\ NoDup l2 /\ forall v, In v l1 -> In v l2 -> False.
+Proof.
+  induction l1 as [|a l1 IH]; cbn; intros ND.
+  - split; [constructor|]. split; [exact ND|]. intros v [].
+  - inversion ND as [|? ? Ha ND']; subst. destruct (IH ND') as (N1 & N2 & D).
+    rewrite in_app_iff in Ha. split; [constructor; tauto|]. split; [exact N2|].
+    intros v [->|H1] H2; [tauto|eauto].
+Qed.
+
+Lemma NoDup_concat_rows (g : graph) : NoDup (concat g) ->
+  (forall i, NoDup (nth i g [])) /\
+  (forall i j v, In v (nth i g []) -> In v (nth j g []) -> i = j).
+Proof.
+  induction g as [|r g IH]; intros ND.
+  - split; [intros [|i]; constructor|intros [|i] j v []].
+  - cbn [concat] in ND. destruct (NoDup_app_inv _ _ ND) as (ND1 & ND2 & Dis).
+    destruct (IH ND2) as [IH1 IH2]. split.
+    + intros [|i]; cbn [nth]; auto.
+    + assert (Hin : forall i v, In v (nth i g []) -> In v (concat g)).
+      { intros i v Hv. destruct (Nat.lt_ge_cases i (length g)) as [Hi|Hi].
+        - apply in_concat. exists (nth i g []). split; [apply nth_In; exact Hi|exact Hv].
+        - rewrite nth_overflow in Hv by exact Hi. destruct Hv. }
+      intros [|i] [|j] v H1 H2; cbn [nth] in *; auto.
+      * exfalso. eapply Dis; eauto.
+      * exfalso. eapply Dis; eauto.
+      * f_equal. eapply IH2; eauto.
+Qed.
+
+Lemma out_forestb_ok g : out_forestb g = true -> out_forest g.
+Proof.
+  unfold out_forestb. intros Hb. pose proof (nodupb_ok _ Hb) as ND.
+  destruct (NoDup_concat_rows g ND) as [H1 H2]. split; [exact H1|]. intros u u' v. apply H2.
+Qed.
